@@ -1,5 +1,424 @@
 #!/usr/bin/env python3
-"""Translator from /repo's leaf C++ to Gallina (Gen/*.v).  (filled in with the
-C19 work; until then a no-op that succeeds)"""
-import sys
-sys.exit(0)
+"""cxx2v: translate small, pure, integer leaf functions of /repo's headers to
+Gallina (coq/theories/Gen/*.v), from clang's JSON AST.
+
+Covered subset: integer/bool expressions (literals, casts, + - * | & ^ << >>,
+comparisons, && || !), sizeof, calls of other translated static functions,
+members of the enclosing class (become parameters), if/else, return, throw
+error(CODE), one local union used for int<->float punning, and a
+switch(mytype=t) whose cases become separate definitions.
+Anything outside the subset raises Unsupported and the tool exits 4 with
+"translation-unavailable <fn>".
+
+Every C++ operation whose result type has a fixed width is followed by an
+explicit wrap (cast_int / cast_long / ...) from Model/Bits.v.
+"""
+import json, os, subprocess, sys, hashlib
+
+VERIF = os.path.dirname(os.path.dirname(os.path.abspath(__file__)))
+REPO = os.environ.get("VERIF_REPO", "/repo")
+OUTDIR = os.path.join(VERIF, "coq", "theories", "Gen")
+
+SIZEOF = {"MEDDLY::node_handle": 4, "node_handle": 4, "int": 4, "float": 4, "double": 8,
+          "long": 8, "unsigned int": 4, "unsigned long": 8}
+
+
+class Unsupported(Exception):
+    pass
+
+
+def clang_ast(header, name):
+    src = "/var/tmp/cxx2v-%d.cc" % os.getpid()
+    with open(src, "w") as f:
+        f.write('#include "%s"\n' % header)
+    try:
+        r = subprocess.run(
+            ["clang++", "-std=c++11", "-DHAVE_CONFIG_H", "-I" + REPO, "-I" + os.path.join(REPO, "src"),
+             "-fsyntax-only", "-Xclang", "-ast-dump=json", "-Xclang", "-ast-dump-filter=" + name, src],
+            capture_output=True, text=True)
+    finally:
+        os.remove(src)
+    txt = r.stdout
+    dec = json.JSONDecoder()
+    i, objs = 0, []
+    while i < len(txt):
+        while i < len(txt) and txt[i].isspace():
+            i += 1
+        if i >= len(txt):
+            break
+        o, i = dec.raw_decode(txt, i)
+        objs.append(o)
+    return objs
+
+
+def qt(n):
+    t = n.get("type", {}).get("qualType", "")
+    return t.replace("const ", "").strip()
+
+
+def cast_for(t):
+    t = t.replace("MEDDLY::", "")
+    if t in ("int", "node_handle"):
+        return "cast_int"
+    if t == "long":
+        return "cast_long"
+    if t == "unsigned int":
+        return "cast_uint"
+    if t in ("unsigned long", "size_t"):
+        return "cast_ulong"
+    raise Unsupported("cast to " + t)
+
+
+def is_float(t):
+    return t.replace("MEDDLY::", "") in ("float", "double")
+
+
+class Fn:
+    """translation context of one function"""
+
+    def __init__(self, name):
+        self.name = name
+        self.params = []      # member / parameter names used
+        self.locals = {}      # union variable -> current Gallina name
+        self.scalars = {}     # local scalar variable -> (Gallina name, kind)
+
+    def use(self, nm):
+        if nm not in self.params:
+            self.params.append(nm)
+        return nm
+
+    # ---- expressions: return (gallina, kind) with kind in {"Z","bool","bits"}
+    def expr(self, n):
+        k = n["kind"]
+        if k in ("ParenExpr", "ExprWithCleanups", "ConstantExpr", "MaterializeTemporaryExpr"):
+            return self.expr(n["inner"][0])
+        if k == "IntegerLiteral":
+            return ("(%s)" % n["value"], "Z")
+        if k == "CXXBoolLiteralExpr":
+            return ("true" if n["value"] else "false", "bool")
+        if k == "UnaryExprOrTypeTraitExpr":
+            if n.get("name") != "sizeof":
+                raise Unsupported("trait " + str(n.get("name")))
+            t = n.get("argType", {}).get("qualType")
+            if t is None and n.get("inner"):
+                t = qt(n["inner"][0])
+            t = (t or "").replace("const ", "")
+            if t not in SIZEOF:
+                raise Unsupported("sizeof " + str(t))
+            return ("(%d)" % SIZEOF[t], "Z")
+        if k == "ImplicitCastExpr" or k == "CStyleCastExpr" or k == "CXXFunctionalCastExpr" \
+                or k == "CXXStaticCastExpr":
+            ck = n.get("castKind")
+            e, ek = self.expr(n["inner"][0])
+            if ck in ("LValueToRValue", "NoOp", "FunctionToPointerDecay"):
+                return (e, ek)
+            if ck == "IntegralCast":
+                if ek == "bool":
+                    e = "(if %s then 1 else 0)" % e
+                return ("(%s %s)" % (cast_for(qt(n)), e), "Z")
+            if ck == "IntegralToBoolean":
+                return ("(int_nonzero %s)" % e, "bool")
+            if ck == "FloatingToBoolean":
+                return ("(float_nonzero %s)" % e, "bool")
+            if ck == "FloatingCast":
+                # float <-> double of the same stored value: pattern kept
+                return (e, ek)
+            raise Unsupported("castKind " + str(ck))
+        if k == "CXXThisExpr":
+            return ("this", "this")
+        if k == "MemberExpr":
+            base = n["inner"][0]
+            nm = n.get("name", "")
+            # member of local union variable?
+            if base["kind"] == "DeclRefExpr" and base["referencedDecl"]["name"] in self.locals:
+                v = self.locals[base["referencedDecl"]["name"]]
+                if v is None:
+                    raise Unsupported("union read before write")
+                if is_float(qt(n)):
+                    return (v, "bits")
+                return ("(int_of_bits %s)" % v, "Z")
+            # (possibly anonymous-union) member of *this
+            b = base
+            while b["kind"] == "MemberExpr":
+                b = b["inner"][0]
+            if b["kind"] == "CXXThisExpr":
+                return (self.use(nm), "bits" if is_float(qt(n)) else "Z")
+            raise Unsupported("member of non-this")
+        if k == "DeclRefExpr":
+            nm = n["referencedDecl"]["name"]
+            if n["referencedDecl"]["kind"] == "ParmVarDecl":
+                return (self.use(nm), "bits" if is_float(qt(n)) else "Z")
+            if n["referencedDecl"]["kind"] == "EnumConstantDecl":
+                return ("\"%s\"" % nm, "enum")
+            if n["referencedDecl"]["kind"] == "VarDecl" and nm in self.scalars:
+                return self.scalars[nm]
+            return (nm, "fun")
+        if k == "CallExpr" or k == "CXXMemberCallExpr":
+            callee = n["inner"][0]
+            while callee["kind"] in ("ImplicitCastExpr",):
+                callee = callee["inner"][0]
+            if callee["kind"] == "DeclRefExpr":
+                nm = callee["referencedDecl"]["name"]
+            elif callee["kind"] == "MemberExpr":
+                nm = callee["name"]
+            else:
+                raise Unsupported("callee " + callee["kind"])
+            if len(n["inner"]) != 1:
+                raise Unsupported("call with arguments: " + nm)
+            DEPS.add(nm)
+            return (nm, "Z")
+        if k == "UnaryOperator":
+            e, ek = self.expr(n["inner"][0])
+            op = n["opcode"]
+            if op == "!":
+                return ("(negb %s)" % self.as_bool(e, ek), "bool")
+            if op == "-":
+                return ("(%s (- %s))" % (cast_for(qt(n)), e), "Z")
+            if op == "~":
+                return ("(%s (Z.lnot %s))" % (cast_for(qt(n)), e), "Z")
+            raise Unsupported("unary " + op)
+        if k == "BinaryOperator":
+            op = n["opcode"]
+            a, ak = self.expr(n["inner"][0])
+            b, bk = self.expr(n["inner"][1])
+            if op in ("||", "&&"):
+                f = "orb" if op == "||" else "andb"
+                return ("(%s %s %s)" % (f, self.as_bool(a, ak), self.as_bool(b, bk)), "bool")
+            if op in ("<", ">", "<=", ">=", "==", "!="):
+                m = {"<": "Z.ltb", ">": "Z.gtb", "<=": "Z.leb", ">=": "Z.geb", "==": "Z.eqb"}
+                if op == "!=":
+                    return ("(negb (Z.eqb %s %s))" % (a, b), "bool")
+                return ("(%s %s %s)" % (m[op], a, b), "bool")
+            m = {"+": "Z.add", "-": "Z.sub", "*": "Z.mul", "|": "Z.lor", "&": "Z.land", "^": "Z.lxor",
+                 "<<": "Z.shiftl", ">>": "Z.shiftr"}
+            if op in m:
+                if ak == "bool":
+                    a = "(if %s then 1 else 0)" % a
+                if bk == "bool":
+                    b = "(if %s then 1 else 0)" % b
+                return ("(%s (%s %s %s))" % (cast_for(qt(n)), m[op], a, b), "Z")
+            raise Unsupported("binary " + op)
+        if k == "ConditionalOperator":
+            c, ck = self.expr(n["inner"][0])
+            a, ak = self.expr(n["inner"][1])
+            b, bk = self.expr(n["inner"][2])
+            return ("(if %s then %s else %s)" % (self.as_bool(c, ck), a, b), ak)
+        raise Unsupported("expr kind " + k)
+
+    def as_bool(self, e, k):
+        if k == "bool":
+            return e
+        if k == "bits":
+            return "(float_nonzero %s)" % e
+        return "(int_nonzero %s)" % e
+
+    # ---- statements: translate a list; returns Gallina of type res
+    def stmts(self, ss, out_member=None):
+        if not ss:
+            if out_member and self.assigned.get(out_member) is not None:
+                return "(Ok %s)" % self.assigned[out_member]
+            raise Unsupported("fell off the end of " + self.name)
+        s, rest = ss[0], ss[1:]
+        k = s["kind"]
+        if k == "NullStmt":
+            return self.stmts(rest, out_member)
+        if k == "CompoundStmt":
+            return self.stmts(s.get("inner", []) + rest, out_member)
+        if k == "IfStmt":
+            inner = s["inner"]
+            c, ck = self.expr(inner[0])
+            c = self.as_bool(c, ck)
+            saved = (dict(self.locals), dict(self.assigned), dict(self.scalars))
+            th = self.stmts([inner[1]] + rest, out_member)
+            self.locals, self.assigned, self.scalars = dict(saved[0]), dict(saved[1]), dict(saved[2])
+            el = self.stmts(([inner[2]] if len(inner) > 2 else []) + rest, out_member)
+            self.locals, self.assigned, self.scalars = saved
+            return "(if %s\n   then %s\n   else %s)" % (c, th, el)
+        if k == "ReturnStmt":
+            if not s.get("inner"):
+                if out_member and self.assigned.get(out_member) is not None:
+                    return "(Ok %s)" % self.assigned[out_member]
+                raise Unsupported("void return without assignment")
+            e, ek = self.expr(s["inner"][0])
+            if ek == "bool":
+                e = "(if %s then 1 else 0)" % e
+            return "(Ok %s)" % e
+        if k == "ExprWithCleanups" or k == "CXXThrowExpr":
+            t = s
+            while t["kind"] != "CXXThrowExpr":
+                if not t.get("inner"):
+                    raise Unsupported("cleanup without throw")
+                t = t["inner"][0]
+            code = find_enum(t)
+            return "(Err \"%s\")" % code
+        if k == "DeclStmt":
+            for d in s["inner"]:
+                if d["kind"] == "VarDecl" and d.get("init") and d.get("inner") \
+                        and d["inner"][-1]["kind"] != "CXXConstructExpr":
+                    # local with initialiser: let-binding
+                    e, ek = self.expr(d["inner"][-1])
+                    if ek == "bool":
+                        e = "(if %s then 1 else 0)" % e
+                    fresh = "%s%d" % (d["name"], self.counter())
+                    self.scalars[d["name"]] = (fresh, ek if ek != "bool" else "Z")
+                    return "(let %s := %s in\n   %s)" % (fresh, e, self.stmts(rest, out_member))
+                elif d["kind"] == "VarDecl":
+                    self.locals[d["name"]] = None
+                elif d["kind"] in ("CXXRecordDecl",):
+                    pass
+                else:
+                    raise Unsupported("decl " + d["kind"])
+            return self.stmts(rest, out_member)
+        if k == "BinaryOperator" and s["opcode"] == "=":
+            lhs, rhs = s["inner"]
+            e, ek = self.expr(rhs)
+            if lhs["kind"] == "MemberExpr":
+                base = lhs["inner"][0]
+                if base["kind"] == "DeclRefExpr" and base["referencedDecl"]["name"] in self.locals:
+                    var = base["referencedDecl"]["name"]
+                    fresh = "%s%d" % (var, self.counter())
+                    self.locals[var] = fresh
+                    val = e if (is_float(qt(lhs)) and ek == "bits") else "(bits_of_int %s)" % e
+                    return "(let %s := %s in\n   %s)" % (fresh, val, self.stmts(rest, out_member))
+                b = base
+                while b["kind"] == "MemberExpr":
+                    b = b["inner"][0]
+                if b["kind"] == "CXXThisExpr":
+                    if ek == "bool":
+                        e = "(if %s then 1 else 0)" % e
+                    self.assigned[lhs["name"]] = e
+                    return self.stmts(rest, out_member)
+            raise Unsupported("assignment target")
+        if k == "CallExpr":
+            # FAIL(...) etc.: not reachable in the translated cases
+            raise Unsupported("call statement")
+        raise Unsupported("stmt kind " + k)
+
+    _n = 0
+
+    def counter(self):
+        Fn._n += 1
+        return Fn._n
+
+    assigned = {}
+
+
+def find_enum(n):
+    if n.get("kind") == "DeclRefExpr" and n.get("referencedDecl", {}).get("kind") == "EnumConstantDecl":
+        return n["referencedDecl"]["name"]
+    for c in n.get("inner", []):
+        r = find_enum(c)
+        if r:
+            return r
+    return None
+
+
+DEPS = set()
+
+
+def body_of(decl):
+    for c in decl.get("inner", []):
+        if c["kind"] == "CompoundStmt":
+            return c
+    raise Unsupported("no body")
+
+
+def translate_fn(header, cls, name, out_member=None):
+    objs = [o for o in clang_ast(header, name) if o.get("name") == name and o["kind"] in
+            ("CXXMethodDecl", "FunctionDecl")]
+    objs = [o for o in objs if any(c["kind"] == "CompoundStmt" for c in o.get("inner", []))]
+    if not objs:
+        raise Unsupported("not found: " + name)
+    d = objs[0]
+    f = Fn(name)
+    f.assigned = {}
+    g = f.stmts([body_of(d)], out_member)
+    return f, g
+
+
+def translate_switch_cases(header, name, wanted):
+    """setFromHandle: one definition per case label in `wanted`
+    (label -> member assigned)"""
+    objs = [o for o in clang_ast(header, name) if o.get("name") == name]
+    d = [o for o in objs if any(c["kind"] == "CompoundStmt" for c in o.get("inner", []))][0]
+    body = body_of(d)
+    sw = [c for c in body["inner"] if c["kind"] == "SwitchStmt"]
+    if not sw:
+        raise Unsupported("no switch in " + name)
+    comp = [c for c in sw[0]["inner"] if c["kind"] == "CompoundStmt"][0]
+    # flatten: CaseStmt nodes contain their first statement
+    out = {}
+    items = comp["inner"]
+    i = 0
+    cur = None
+    acc = {}
+    for it in items:
+        if it["kind"] in ("CaseStmt", "DefaultStmt"):
+            lab = find_enum(it["inner"][0]) if it["kind"] == "CaseStmt" else "default"
+            cur = lab
+            acc[cur] = []
+            sub = it["inner"][-1]
+            acc[cur].append(sub)
+        elif cur is not None:
+            acc[cur].append(it)
+    for lab, member in wanted.items():
+        if lab not in acc:
+            raise Unsupported("case " + lab)
+        f = Fn(name + "_" + lab)
+        f.assigned = {}
+        g = f.stmts(acc[lab], member)
+        out[lab] = (f, g)
+    return out
+
+
+def emit_def(name, params, body, const=False):
+    if const:
+        return "Definition %s : res :=\n  %s.\n" % (name, body)
+    ps = " ".join("(%s : Z)" % p for p in params)
+    return "Definition %s %s : res :=\n  %s.\n" % (name, ps, body)
+
+
+def gen_terminal():
+    hdr = "terminal.h"
+    parts = ["(* GENERATED by tools/cxx2v.py from %s/src/terminal.h -- do not edit. *)" % REPO,
+             "From Coq Require Import ZArith Bool String.",
+             "From Meddly Require Import Model.Bits.",
+             "Local Open Scope Z_scope.", "Local Open Scope string_scope.", ""]
+    # constants (static, no parameters): defined as Z by forcing the result
+    for nm in ("intMin", "intMax", "msb"):
+        f, g = translate_fn(hdr, "terminal", nm)
+        if f.params:
+            raise Unsupported(nm + " has parameters")
+        parts.append("Definition %s_res : res :=\n  %s.\n" % (nm, g))
+        parts.append("Definition %s : Z := match %s_res with Ok v => v | Err _ => 0 end.\n" % (nm, nm))
+    for nm in ("getIntegerHandle", "getRealHandle"):
+        f, g = translate_fn(hdr, "terminal", nm)
+        parts.append(emit_def(nm, f.params, g))
+    cases = translate_switch_cases(hdr, "setFromHandle",
+                                   {"BOOLEAN": "t_boolean", "INTEGER": "t_integer", "REAL": "t_real"})
+    for lab, (f, g) in cases.items():
+        params = [p for p in f.params if p != "t"]
+        parts.append(emit_def("setFromHandle_" + lab, params, g))
+    # boolean handle: the BOOLEAN case of getHandle is "t_boolean ? -1 : 0"
+    return "\n".join(parts)
+
+
+def main():
+    os.makedirs(OUTDIR, exist_ok=True)
+    try:
+        txt = gen_terminal()
+    except Unsupported as e:
+        print("translation-unavailable", e)
+        return 4
+    p = os.path.join(OUTDIR, "Terminal.v")
+    old = open(p).read() if os.path.exists(p) else None
+    if old != txt:
+        with open(p, "w") as f:
+            f.write(txt)
+    print("Gen/Terminal.v sha256", hashlib.sha256(txt.encode()).hexdigest()[:16],
+          "(changed)" if old != txt else "(unchanged)")
+    return 0
+
+
+if __name__ == "__main__":
+    sys.exit(main())
